@@ -728,4 +728,251 @@ theorem exprSem_not {inputs : List String} {ρ : Env} {σ0 : FState} {r : String
         · have := sem1.nq; omega
         · rw [hvb, hcf, hz, hval]; simp [BExp.eval]
 
+/-! ### argument lists, `And` -/
+
+def ArgsSem (inputs : List String) (ρ : Env) (σ0 : FState) (r : String) (as : List BExp) : Prop :=
+  ∀ {rs : List Nat} {s s' : CState}, (compileArgs as).run s = .ok (rs, s') →
+    Pre inputs ρ σ0 s →
+    (∀ p ∈ s.expq, ∀ c ∈ compSubsList as, (p.1 == c) = false) →
+    Sem σ0 NoQ (· ∈ compSubsList as) (fun m => s.qc.numQubits ≤ m) s s' ∧
+    rs.map (cur σ0 s') = as.map (BExp.eval ρ) ∧
+    ∀ q ∈ rs, (q < inputs.length ∨ s.qc.numQubits ≤ q) ∧ q < s'.qc.numQubits
+
+theorem argsSem_nil {inputs : List String} {ρ : Env} {σ0 : FState} {r : String} :
+    ArgsSem inputs ρ σ0 r [] := by
+  intro rs s s' h _ _
+  unfold compileArgs at h
+  obtain ⟨rfl, rfl⟩ := run_pure_ok.mp h
+  exact ⟨Sem.refl _, rfl, fun q hq => by cases hq⟩
+
+theorem argsSem_cons {inputs : List String} {ρ : Env} {σ0 : FState} {r : String} (amb : Amb inputs σ0 r)
+    {a : BExp} {as : List BExp} (iha : ExprSem inputs ρ σ0 r a) (ihs : ArgsSem inputs ρ σ0 r as)
+    (hdis : ∀ x ∈ compSubs a, ∀ y ∈ compSubsList as, (x == y) = false) :
+    ArgsSem inputs ρ σ0 r (a :: as) := by
+  intro rs s s' h hp hcache
+  unfold compileArgs at h
+  obtain ⟨q1, s1, h1, h2⟩ := run_bind_ok.mp h
+  obtain ⟨rs', s2, h3, h4⟩ := run_bind_ok.mp h2
+  obtain ⟨rfl, rfl⟩ := run_pure_ok.mp h4
+  obtain ⟨st1, hlt⟩ := exprSpec (B := (· = r)) a none none h1 hp.good (by intro d hd0; cases hd0)
+    (by intro y hy; cases hy)
+  obtain ⟨sem1, hv1, _⟩ := iha none none h1 hp
+    (fun p hp' c hc => hcache p hp' c (by simp [compSubsList, hc])) (by intro d hd0; cases hd0)
+    (by intro y hy; cases hy) (fun _ => ⟨rfl, rfl⟩)
+  obtain ⟨hfresh, hval⟩ := hv1 rfl
+  have hp1 : Pre inputs ρ σ0 s1 := hp.next amb st1 sem1 (by intro q hq; cases hq)
+  obtain ⟨sem2, hvals, hb⟩ := ihs h3 hp1 (by
+    intro p hp' c hc
+    rcases sem1.keys p hp' with ⟨p0, hp0, e0⟩ | hk
+    · rw [← e0]; exact hcache p0 hp0 c (by simp [compSubsList, hc])
+    · exact hdis _ hk c hc)
+  refine ⟨(sem1.trans' sem2).mono ?_ ?_ ?_, ?_, ?_⟩
+  · rintro q _ (h | h)
+    · exact nomatch h
+    · exact h.elim
+  · rintro c (h | h)
+    · simp [compSubsList, show c ∈ compSubs a from h]
+    · simp [compSubsList, show c ∈ compSubsList as from h]
+  · rintro m (h | h)
+    · exact h.1
+    · exact Nat.le_trans sem1.nq h
+  · simp only [List.map_cons, hvals]
+    rw [sem2.frame q1 hlt (fun h => h), hval]
+  · intro q hq
+    simp only [List.mem_cons] at hq
+    rcases hq with rfl | hq
+    · exact ⟨hfresh, Nat.lt_of_lt_of_le hlt sem2.nq⟩
+    · refine ⟨(hb q hq).1.imp id (fun h => Nat.le_trans sem1.nq h), (hb q hq).2⟩
+
+theorem all_of_map {f : Nat → Bool} {ρ : Env} : ∀ {rs : List Nat} {as : List BExp},
+    rs.map f = as.map (BExp.eval ρ) → rs.all f = evalAnd ρ as
+  | [], [], _ => rfl
+  | [], _ :: _, h => by simp at h
+  | _ :: _, [], h => by simp at h
+  | q :: rs, a :: as, h => by
+    simp only [List.map_cons, List.cons.injEq] at h
+    simp only [List.all_cons, evalAnd, h.1, all_of_map h.2]
+
+theorem any_of_map {f : Nat → Bool} {ρ : Env} : ∀ {rs : List Nat} {as : List BExp},
+    rs.map f = as.map (BExp.eval ρ) → rs.any f = evalOr ρ as
+  | [], [], _ => rfl
+  | [], _ :: _, h => by simp at h
+  | _ :: _, [], h => by simp at h
+  | q :: rs, a :: as, h => by
+    simp only [List.map_cons, List.cons.injEq] at h
+    simp only [List.any_cons, evalOr, h.1, any_of_map h.2]
+
+theorem mem_sortDedup {l : List Nat} {x : Nat} : x ∈ sortNat l.eraseDups ↔ x ∈ l := by
+  unfold sortNat
+  rw [List.mem_mergeSort, List.mem_eraseDups]
+
+theorem all_sortDedup (l : List Nat) (f : Nat → Bool) : (sortNat l.eraseDups).all f = l.all f := by
+  rw [Bool.eq_iff_iff]
+  simp only [List.all_eq_true, mem_sortDedup]
+
+theorem any_sortDedup (l : List Nat) (f : Nat → Bool) : (sortNat l.eraseDups).any f = l.any f := by
+  rw [Bool.eq_iff_iff]
+  simp only [List.any_eq_true, mem_sortDedup]
+
+/-- the common tail of `compile_and` / `compile_or` -/
+theorem finish_sem {σ0 : FState} {es : List Nat} {dest : Option Nat} {e : BExp} {d a : Nat} {s s' : CState}
+    (h : StateT.run (do
+          markAll es
+          if dest.isNone = true then do
+              expqSet e d
+              pure d
+            else pure d : M Nat) s = .ok (a, s')) :
+    a = d ∧ Sem σ0 NoQ (· = e) (fun m => m ∈ es ∧ m ∈ s.qc.anc) s s' ∧ cur σ0 s' = cur σ0 s := by
+  obtain ⟨u1, s1, hm, h1⟩ := run_bind_ok.mp h
+  obtain ⟨sem1, hc1⟩ := markAll_sem (σ0 := σ0) hm
+  split at h1
+  · obtain ⟨u2, s2, hset, h2⟩ := run_bind_ok.mp h1
+    obtain ⟨rfl, rfl⟩ := run_pure_ok.mp h2
+    obtain ⟨sem2, hc2⟩ := expqSet_sem (σ0 := σ0) hset
+    refine ⟨rfl, (sem1.trans' sem2).mono ?_ ?_ ?_, hc2.trans hc1⟩
+    · rintro q _ (h | h) <;> exact h
+    · rintro c (h | h)
+      · exact h.elim
+      · exact h
+    · rintro m (h | h)
+      · exact h
+      · exact h.elim
+  · obtain ⟨rfl, rfl⟩ := run_pure_ok.mp h1
+    refine ⟨rfl, sem1.mono (fun _ _ h => h) (fun _ h => h.elim) (fun _ h => h), hc1⟩
+
+def destOr (dest : Option Nat) : M Nat :=
+  match dest with
+  | some d => pure d
+  | none => getFreeAncilla
+
+/-- the destination of an `And` / `Or`: the caller's accumulator or a fresh ancilla; it is not
+among the argument qubits -/
+theorem dest_sem {inputs : List String} {ρ : Env} {σ0 : FState} {r : String} (amb : Amb inputs σ0 r)
+    {dest : Option Nat} {erets : List Nat} {d : Nat} {s s2 s3 : CState}
+    (hp2 : Pre inputs ρ σ0 s2) (hnq : s.qc.numQubits ≤ s2.qc.numQubits)
+    (hd : ∀ d, dest = some d → inputs.length ≤ d ∧ d < s.qc.numQubits)
+    (hb : ∀ q ∈ erets, (q < inputs.length ∨ s.qc.numQubits ≤ q) ∧ q < s2.qc.numQubits)
+    (h : (destOr dest).run s2 = .ok (d, s3)) :
+    Pre inputs ρ σ0 s3 ∧ Sem σ0 NoQ NoK NoQ s2 s3 ∧ cur σ0 s3 = cur σ0 s2 ∧ d ∉ erets ∧
+      (dest = some d ∨ (dest = none ∧ d = s2.qc.numQubits ∧ cur σ0 s2 d = false)) := by
+  cases dest with
+  | some d0 =>
+    obtain ⟨rfl, rfl⟩ := run_pure_ok.mp h
+    obtain ⟨h1, h2⟩ := hd d rfl
+    refine ⟨hp2, Sem.refl _, rfl, fun hm => ?_, Or.inl rfl⟩
+    have := (hb d hm).1
+    omega
+  | none =>
+    obtain ⟨semf, hcf, hdf, hnf⟩ := getFreeAncilla_sem (σ0 := σ0) h hp2.free
+    refine ⟨hp2.next amb (getFreeAncilla_ok (B := (· = r)) h hp2.good).1 semf (by intro q hq; exact hq.elim),
+      semf, hcf, fun hm => ?_, Or.inr ⟨rfl, hdf, zero_of_good amb hp2.good hp2.nin d (by omega)⟩⟩
+    have := (hb d hm).2
+    omega
+
+theorem exprSem_and {inputs : List String} {ρ : Env} {σ0 : FState} {r : String} (amb : Amb inputs σ0 r)
+    {args : List BExp} (ih : ArgsSem inputs ρ σ0 r args) : ExprSem inputs ρ σ0 r (.and args) := by
+  intro dest sym a s s' h hp hcache hd hsym _
+  unfold compileExpr at h
+  dsimp only at h
+  obtain ⟨r0, s1, hget, h1⟩ := run_bind_ok.mp h
+  obtain ⟨rfl, rfl⟩ := expqGet?_miss hget (fun p hp' => hcache p hp' _ (by simp [compSubs]))
+  dsimp only at h1
+  obtain ⟨erets, s2, hargs, h2⟩ := run_bind_ok.mp h1
+  obtain ⟨st1, _⟩ := argsSpec (B := (· = r)) args hargs hp.good
+  obtain ⟨sem1, hvals, hb⟩ := ih hargs hp (fun p hp' c hc => hcache p hp' c (by simp [compSubs, hc]))
+  have hp2 : Pre inputs ρ σ0 s2 := hp.next amb st1 sem1 (by intro q hq; exact hq.elim)
+  have body : ∀ {d : Nat} {s3 : CState},
+      (destOr dest).run s2 = .ok (d, s3) →
+      StateT.run (
+        if erets.contains d = true then do
+          event "destAmongArgs"
+          mcx (sortNat (if erets.contains d = true then erets.erase d else erets).eraseDups) d
+          markAll (sortNat (if erets.contains d = true then erets.erase d else erets).eraseDups)
+          if dest.isNone = true then do
+              expqSet (BExp.and args) d
+              pure d
+            else pure d
+        else do
+          mcx (sortNat (if erets.contains d = true then erets.erase d else erets).eraseDups) d
+          markAll (sortNat (if erets.contains d = true then erets.erase d else erets).eraseDups)
+          if dest.isNone = true then do
+              expqSet (BExp.and args) d
+              pure d
+            else pure d : M Nat) s3 = .ok (a, s') →
+      Sem σ0 (fun q => dest = some q) (· ∈ compSubs (BExp.and args))
+        (fun m => s1.qc.numQubits ≤ m ∧ (dest = none → m ≠ a)) s1 s' ∧
+      (dest = none → (a < inputs.length ∨ s1.qc.numQubits ≤ a) ∧ cur σ0 s' a = (BExp.and args).eval ρ) ∧
+      (∀ d, dest = some d → a = d ∧ cur σ0 s' d = Bool.xor (cur σ0 s1 d) ((BExp.and args).eval ρ)) := by
+    intro d s3 hdest h3
+    obtain ⟨hp3, sem2, hc2, hdn, hdcase⟩ := dest_sem amb hp2 sem1.nq hd hb hdest
+    have hcd : ¬ (erets.contains d = true) := by simpa using hdn
+    rcases run_ite_ok.mp h3 with ⟨hc, _⟩ | ⟨_, h3⟩
+    · exact absurd hc hcd
+    · rw [if_neg hcd] at h3
+      obtain ⟨u1, t1, hmcx, k1⟩ := run_bind_ok.mp h3
+      have am := mcx_run hmcx
+      obtain ⟨rfl, semf, hcf⟩ := finish_sem (σ0 := σ0) k1
+      have hval : cur σ0 s' a = Bool.xor (cur σ0 s2 a) (evalAnd ρ args) := by
+        rw [hcf, am.cur_eq rfl σ0, all_sortDedup, hc2, all_of_map hvals]
+      have hmk : ∀ m, m ∈ sortNat erets.eraseDups ∧ m ∈ t1.qc.anc → s1.qc.numQubits ≤ m ∧ m < s2.qc.numQubits := by
+        rintro m ⟨h1, h2⟩
+        have hm := hb m (mem_sortDedup.mp h1)
+        rw [am.anc] at h2
+        have := hp3.sge.1 m h2
+        exact ⟨by omega, hm.2⟩
+      have tot := ((sem1.trans' sem2).trans' (am.sem (σ0 := σ0) rfl)).trans' semf
+      rcases hdcase with hsome | ⟨hnone, hda, hz⟩
+      · subst hsome
+        obtain ⟨hd1, hd2⟩ := hd a rfl
+        refine ⟨tot.mono ?_ ?_ ?_, fun hn => (by cases hn), fun d' hd' => ?_⟩
+        · rintro q _ (((h | h) | h) | h)
+          · exact h.elim
+          · exact h.elim
+          · rw [h]
+          · exact h.elim
+        · rintro c (((h | h) | h) | h)
+          · simp [compSubs, show c ∈ compSubsList args from h]
+          · exact h.elim
+          · exact h.elim
+          · simp [compSubs, show c = BExp.and args from h]
+        · rintro m (((h | h) | h) | h)
+          · exact ⟨h, fun hn => by cases hn⟩
+          · exact h.elim
+          · exact h.elim
+          · exact ⟨(hmk m h).1, fun hn => by cases hn⟩
+        · cases hd'
+          refine ⟨rfl, ?_⟩
+          rw [hval, sem1.frame a hd2 (fun h => h)]
+          simp [BExp.eval]
+      · subst hnone
+        refine ⟨(((sem1.with_lt hp2.good).trans' sem2).trans' (am.sem (σ0 := σ0) rfl)).trans' semf |>.mono ?_ ?_ ?_,
+          fun _ => ⟨Or.inr (by have := sem1.nq; omega), ?_⟩, fun d' hd' => by cases hd'⟩
+        · rintro q hq (((h | h) | h) | h)
+          · exact h.elim
+          · exact h.elim
+          · have := sem1.nq; omega
+          · exact h.elim
+        · rintro c (((h | h) | h) | h)
+          · simp [compSubs, show c ∈ compSubsList args from h]
+          · exact h.elim
+          · exact h.elim
+          · simp [compSubs, show c = BExp.and args from h]
+        · rintro m (((h | h) | h) | h)
+          · exact ⟨h.1, fun _ => by have := h.2; omega⟩
+          · exact h.elim
+          · exact h.elim
+          · exact ⟨(hmk m h).1, fun _ => by have := (hmk m h).2; omega⟩
+        · rw [hval, hz]
+          simp [BExp.eval]
+
+  cases dest with
+  | some d0 =>
+    dsimp only at h2
+    obtain ⟨d, s3, hp0, h4⟩ := run_bind_ok.mp h2
+    exact body hp0 h4
+  | none =>
+    dsimp only at h2
+    obtain ⟨d, s3, hf, h4⟩ := run_bind_ok.mp h2
+    exact body hf h4
+
 end QV.Compiler
